@@ -44,6 +44,7 @@ def main():
         json.dump(res, open(os.path.join(a.dir, "result.json"), "w"), indent=1)
         return 2
     res["applies"] = True
+    sh("rm -rf /verif/.work/evidence.keep && cp -r /verif/evidence /verif/.work/evidence.keep")   # evidence of a changed tree is never kept
     try:
         for p in props:
             t0 = time.time()
@@ -70,6 +71,7 @@ def main():
         if not a.confirm_only:
             sh("git -C /repo reset -q --hard HEAD && git -C /repo checkout -- . && git -C /repo clean -fdq crates src")
         if not a.confirm_only:
+            sh("cp /verif/.work/evidence.keep/*.json /verif/evidence/ && rm -rf /verif/.work/evidence.keep")
             sh("/verif/tools/build_harness.sh dev rel dev-sep rel-sep")   # never leave binaries of a changed tree behind
         rc, out = sh("git -C /repo status --porcelain")
         if out.strip() and not a.confirm_only:
